@@ -6,12 +6,16 @@ package sign
 // Output gates (C01). Receiver: the result (and the signature sent to the sender) is produced only for a
 // signature the textbook ECDSA equation accepts for the configured public key and this session's hash.
 //@ func (*round2R).Finalize
+//@   nopanic[C05]
+//@   requires s2rok(r) && out != nil && !closed(out) && len(r.hash) > 0
+//@   requires r.RPrime != nil && r.RProof != nil && zksch.shapedProof(r.RProof) && r.MulMsg0 != nil && r.MulMsg1 != nil && r.MulMsg2 != nil && r.MuPhi != nil && r.MuSig != nil
 //@   assert_at[C01] ResultRound "return r.ResultRound(&sig)": ecdsa_valid(sig.R, sig.S, r.config.Public, r.hash)
 //@   assert_at[C01] ResultRound "return r.ResultRound(&sig)": typeis(arg1, *ecdsa.Signature) && arg1.(*ecdsa.Signature).R == sig.R && arg1.(*ecdsa.Signature).S == sig.S
 
 // Sender: a received signature is accepted only if valid for (config.Public, hash); the stored signature is the
 // verified one; the result is the stored one (StoreMessage runs only after VerifyMessage accepted: C03 handler gate).
 //@ func (*round2S).VerifyMessage
+//@   nopanic[C05]
 //@   requires r != nil && r.round1S != nil && r.config != nil && r.config.Public != nil
 //@   requires typeis(msg.Content, *message2R) && msg.Content.(*message2R) != nil ==> (msg.Content.(*message2R).Sig.R != nil && msg.Content.(*message2R).Sig.S != nil)
 //@   modifies nothing
@@ -19,10 +23,12 @@ package sign
 //@   let body = msg.Content.(*message2R)
 //@   ensures[C01,C03] result == nil ==> typeis(msg.Content, *message2R) && body != nil && ecdsa_valid(body.Sig.R, body.Sig.S, r.config.Public, r.hash)
 //@ func (*round2S).StoreMessage
+//@   nopanic[C05]
 //@   requires r != nil && typeis(msg.Content, *message2R) && msg.Content.(*message2R) != nil
 //@   let body = msg.Content.(*message2R)
 //@   ensures[C01,C03] r.Sig.R == body.Sig.R && r.Sig.S == body.Sig.S
 //@ func (*round2S).Finalize
+//@   nopanic[C05]
 //@   requires r != nil && r.round1S != nil && r.Helper != nil
 //@   assert_at[C01] ResultRound "return r.ResultRound(&r.Sig)": typeis(arg1, *ecdsa.Signature) && arg1.(*ecdsa.Signature) == r.Sig
 
@@ -35,3 +41,50 @@ package sign
 //@   nopanic[C20]
 //@   ensures[C20] result1 != nil ==> result0 == nil
 //@   ensures[C20] result1 == nil ==> (result0 != nil && config != nil && config.Public != nil && config.SecretShare != nil && config.Setup != nil && len(hash) > 0)
+
+// ---- round state invariants and acceptance gates of the signing rounds (C03, C05)
+//@ pred shok(h *round.Helper) := h != nil && h.hash != nil && h.hash.h != nil && h.info.Group != nil && typeis(h.info.Group, curve.Secp256k1) && !held(h.mtx)
+//@ pred s1sok(r *round1S) := r != nil && shok(r.Helper) && r.config != nil && r.config.Public != nil && r.config.SecretShare != nil && r.config.Setup != nil
+//@ pred s1rok(r *round1R) := r != nil && shok(r.Helper) && r.config != nil && r.config.Public != nil && r.config.SecretShare != nil && r.config.Setup != nil
+//@ pred s2rok(r *round2R) := r != nil && s1rok(r.round1R) && r.kBInv != nil && r.D != nil && ot.mrok(r.multiply0) && ot.mrok(r.multiply1) && ot.mrok(r.multiply2)
+// what the CBOR decoder leaves in the content templates (A-CBOR): pre-shaped interface values stay non-nil
+//@ pred dec_s1r(b *message1R) := b.D != nil
+//@ pred dec_s1s(b *message1S) := b.RPrime != nil && b.MuPhi != nil && b.MuSig != nil && (b.RProof != nil ==> zksch.shapedProof(b.RProof))
+
+// Sender round 1: the receiver's nonce commitment is accepted only if it is not the identity; all three
+// multiplication messages must be present; stored exactly as sent.
+//@ func (*round1S).VerifyMessage
+//@   nopanic[C05]
+//@   requires s1sok(r) && msg.Content != nil && (typeis(msg.Content, *message1R) ==> (msg.Content.(*message1R) != nil ==> dec_s1r(msg.Content.(*message1R))))
+//@   modifies nothing
+//@   let body = msg.Content.(*message1R)
+//@   ensures[C03] result == nil ==> typeis(msg.Content, *message1R) && body != nil && body.D != nil && ptval(body.D) != p_id() && body.MulMsg0 != nil && body.MulMsg1 != nil && body.MulMsg2 != nil
+//@ func (*round1S).StoreMessage
+//@   nopanic[C05]
+//@   requires s1sok(r) && typeis(msg.Content, *message1R) && msg.Content.(*message1R) != nil
+//@   let body = msg.Content.(*message1R)
+//@   ensures[C03] result == nil && r.D == body.D && r.mulMsg0 == body.MulMsg0 && r.mulMsg1 == body.MulMsg1 && r.mulMsg2 == body.MulMsg2
+
+// Receiver round 2: every field of the sender's message must be present; stored exactly as sent (the proof, the
+// multiplication messages and the masked values are checked in Finalize, which ends in the signature check -- C01).
+//@ func (*round2R).VerifyMessage
+//@   nopanic[C05]
+//@   requires s2rok(r) && msg.Content != nil
+//@   modifies nothing
+//@   let body = msg.Content.(*message1S)
+//@   ensures[C03] result == nil ==> typeis(msg.Content, *message1S) && body != nil && body.RPrime != nil && body.RProof != nil && body.MulMsg0 != nil && body.MulMsg1 != nil && body.MulMsg2 != nil && body.MuPhi != nil && body.MuSig != nil
+//@ func (*round2R).StoreMessage
+//@   nopanic[C05]
+//@   requires s2rok(r) && typeis(msg.Content, *message1S) && msg.Content.(*message1S) != nil
+//@   let body = msg.Content.(*message1S)
+//@   ensures[C03] result == nil && r.RPrime == body.RPrime && r.RProof == body.RProof && r.MulMsg0 == body.MulMsg0 && r.MulMsg1 == body.MulMsg1 && r.MulMsg2 == body.MulMsg2 && r.MuPhi == body.MuPhi && r.MuSig == body.MuSig
+
+// Finalize of both first rounds: they construct the multiplication instances (whose state invariant the second round
+// relies on) and, on the sender's side, consume the receiver's multiplication messages -- of any shape -- without a panic.
+//@ func (*round1R).Finalize
+//@   nopanic[C05]
+//@   requires s1rok(r) && out != nil && !closed(out)
+//@   ensures result1 == nil ==> (typeis(result0, *round2R) && s2rok(result0.(*round2R)))
+//@ func (*round1S).Finalize
+//@   nopanic[C05]
+//@   requires s1sok(r) && out != nil && !closed(out) && len(r.hash) > 0 && r.D != nil && r.mulMsg0 != nil && r.mulMsg1 != nil && r.mulMsg2 != nil
